@@ -1574,7 +1574,8 @@ def check_c13(mt, sess):
             own.update(l[0] for l in sec["labels"])
         # names the patch text spells out itself (a label an earlier session
         # left in the module is an ordinary module symbol by now)
-        plines = ((sess.desc["ops"][c["op"]].get("patch") or {}).get("lines")) or []
+        pdesc = sess.desc["ops"][c["op"]].get("patch") or {}
+        plines = list(pdesc.get("lines") or []) + list((pdesc.get("other") or {}).get("lines") or [])
         explicit = {l.get("t") for l in plines if l.get("t") and not l.get("ttemp")}
         for sec in cap["sections"].values():
             for off, (size, ed) in sec["sx"].items():
